@@ -22,6 +22,8 @@ def cells(tier, seed):
                 continue
             if "nested" in b.tags and (n > 2 or len(batch) > 1):
                 continue
+            if "eig" in b.tags and (n != 2 or batch):
+                continue
             for g in GROUPS:
                 out.append({"id": f"{name}/n{n}/b{'x'.join(map(str, batch)) or '-'}/{g}",
                             "params": {"builder": name, "n": n, "batch": list(batch), "group": g}})
